@@ -145,9 +145,9 @@ theorem isSpent_cons (ms : Mid) (id x : Id) (h : x ≠ id) :
 
 -- ------------------------------------------------------------------ kind: sc
 
-theorem putSc_base (ms : Mid) (id : Id) (f : ScDiff → ScDiff) : (ms.putSc id f).base = ms.base := by
+theorem putSc_base_c1 (ms : Mid) (id : Id) (f : ScDiff → ScDiff) : (ms.putSc id f).base = ms.base := by
   unfold Mid.putSc; split <;> rfl
-theorem putSc_spends (ms : Mid) (id : Id) (f : ScDiff → ScDiff) : (ms.putSc id f).spends = ms.spends := by
+theorem putSc_spends_c1 (ms : Mid) (id : Id) (f : ScDiff → ScDiff) : (ms.putSc id f).spends = ms.spends := by
   unfold Mid.putSc; split <;> rfl
 theorem putSc_pool (ms : Mid) (id : Id) (f : ScDiff → ScDiff) : (ms.putSc id f).pool = ms.pool := by
   unfold Mid.putSc; split <;> rfl
@@ -291,7 +291,7 @@ theorem putSc_mem {T} {ms : Mid} (hS : Struct T ms) (hd : TDisj T) {id : Id} (hT
 
 theorem putSc_agree {T} {ms : Mid} (hS : Struct T ms) (hd : TDisj T) {id : Id} (hT : T .sc id) (f : ScDiff → ScDiff)
     (hf : (scNew ms id f).e.id = id) : Agree ms (ms.putSc id f) (· = id) := by
-  refine ⟨putSc_base ms id f, fun x hx => ?_⟩
+  refine ⟨putSc_base_c1 ms id f, fun x hx => ?_⟩
   have hx' : x ≠ id := hx
   rcases putSc_cases hS hd hT f with ⟨i, d, hl, hi, hid, hv, he⟩ | ⟨hl, hv, he⟩
   · unfold scNew at hf; rw [hv] at hf; simp only [Option.getD_some] at hf
@@ -378,9 +378,9 @@ theorem putSc_tot_base {T} {ms : Mid} (hS : Struct T ms) (hd : TDisj T) {id : Id
 
 -- ------------------------------------------------------------------ kind: sf
 
-theorem putSf_base (ms : Mid) (id : Id) (f : SfDiff → SfDiff) : (ms.putSf id f).base = ms.base := by
+theorem putSf_base_c1 (ms : Mid) (id : Id) (f : SfDiff → SfDiff) : (ms.putSf id f).base = ms.base := by
   unfold Mid.putSf; split <;> rfl
-theorem putSf_spends (ms : Mid) (id : Id) (f : SfDiff → SfDiff) : (ms.putSf id f).spends = ms.spends := by
+theorem putSf_spends_c1 (ms : Mid) (id : Id) (f : SfDiff → SfDiff) : (ms.putSf id f).spends = ms.spends := by
   unfold Mid.putSf; split <;> rfl
 theorem putSf_pool (ms : Mid) (id : Id) (f : SfDiff → SfDiff) : (ms.putSf id f).pool = ms.pool := by
   unfold Mid.putSf; split <;> rfl
@@ -524,7 +524,7 @@ theorem putSf_mem {T} {ms : Mid} (hS : Struct T ms) (hd : TDisj T) {id : Id} (hT
 
 theorem putSf_agree {T} {ms : Mid} (hS : Struct T ms) (hd : TDisj T) {id : Id} (hT : T .sf id) (f : SfDiff → SfDiff)
     (hf : (sfNew ms id f).e.id = id) : Agree ms (ms.putSf id f) (· = id) := by
-  refine ⟨putSf_base ms id f, fun x hx => ?_⟩
+  refine ⟨putSf_base_c1 ms id f, fun x hx => ?_⟩
   have hx' : x ≠ id := hx
   rcases putSf_cases hS hd hT f with ⟨i, d, hl, hi, hid, hv, he⟩ | ⟨hl, hv, he⟩
   · unfold sfNew at hf; rw [hv] at hf; simp only [Option.getD_some] at hf
@@ -611,13 +611,13 @@ theorem putSf_tot_base {T} {ms : Mid} (hS : Struct T ms) (hd : TDisj T) {id : Id
 
 -- ------------------------------------------------------------------ kind: fc1
 
-theorem putFc1_base (ms : Mid) (id : Id) (f : Fc1Diff → Fc1Diff) : (ms.putFc1 id f).base = ms.base := by
+theorem putFc1_base_c1 (ms : Mid) (id : Id) (f : Fc1Diff → Fc1Diff) : (ms.putFc1 id f).base = ms.base := by
   unfold Mid.putFc1; split <;> rfl
-theorem putFc1_spends (ms : Mid) (id : Id) (f : Fc1Diff → Fc1Diff) : (ms.putFc1 id f).spends = ms.spends := by
+theorem putFc1_spends_c1 (ms : Mid) (id : Id) (f : Fc1Diff → Fc1Diff) : (ms.putFc1 id f).spends = ms.spends := by
   unfold Mid.putFc1; split <;> rfl
 theorem putFc1_pool (ms : Mid) (id : Id) (f : Fc1Diff → Fc1Diff) : (ms.putFc1 id f).pool = ms.pool := by
   unfold Mid.putFc1; split <;> rfl
-theorem putFc1_sces (ms : Mid) (id : Id) (f : Fc1Diff → Fc1Diff) : (ms.putFc1 id f).sces = ms.sces := by
+theorem putFc1_sces_c1 (ms : Mid) (id : Id) (f : Fc1Diff → Fc1Diff) : (ms.putFc1 id f).sces = ms.sces := by
   unfold Mid.putFc1; split <;> rfl
 theorem putFc1_sfes (ms : Mid) (id : Id) (f : Fc1Diff → Fc1Diff) : (ms.putFc1 id f).sfes = ms.sfes := by
   unfold Mid.putFc1; split <;> rfl
@@ -757,7 +757,7 @@ theorem putFc1_mem {T} {ms : Mid} (hS : Struct T ms) (hd : TDisj T) {id : Id} (h
 
 theorem putFc1_agree {T} {ms : Mid} (hS : Struct T ms) (hd : TDisj T) {id : Id} (hT : T .fc1 id) (f : Fc1Diff → Fc1Diff)
     (hf : (fc1New ms id f).e.id = id) : Agree ms (ms.putFc1 id f) (· = id) := by
-  refine ⟨putFc1_base ms id f, fun x hx => ?_⟩
+  refine ⟨putFc1_base_c1 ms id f, fun x hx => ?_⟩
   have hx' : x ≠ id := hx
   rcases putFc1_cases hS hd hT f with ⟨i, d, hl, hi, hid, hv, he⟩ | ⟨hl, hv, he⟩
   · unfold fc1New at hf; rw [hv] at hf; simp only [Option.getD_some] at hf
@@ -844,13 +844,13 @@ theorem putFc1_tot_base {T} {ms : Mid} (hS : Struct T ms) (hd : TDisj T) {id : I
 
 -- ------------------------------------------------------------------ kind: fc2
 
-theorem putFc2_base (ms : Mid) (id : Id) (f : Fc2Diff → Fc2Diff) : (ms.putFc2 id f).base = ms.base := by
+theorem putFc2_base_c1 (ms : Mid) (id : Id) (f : Fc2Diff → Fc2Diff) : (ms.putFc2 id f).base = ms.base := by
   unfold Mid.putFc2; split <;> rfl
-theorem putFc2_spends (ms : Mid) (id : Id) (f : Fc2Diff → Fc2Diff) : (ms.putFc2 id f).spends = ms.spends := by
+theorem putFc2_spends_c1 (ms : Mid) (id : Id) (f : Fc2Diff → Fc2Diff) : (ms.putFc2 id f).spends = ms.spends := by
   unfold Mid.putFc2; split <;> rfl
 theorem putFc2_pool (ms : Mid) (id : Id) (f : Fc2Diff → Fc2Diff) : (ms.putFc2 id f).pool = ms.pool := by
   unfold Mid.putFc2; split <;> rfl
-theorem putFc2_sces (ms : Mid) (id : Id) (f : Fc2Diff → Fc2Diff) : (ms.putFc2 id f).sces = ms.sces := by
+theorem putFc2_sces_c1 (ms : Mid) (id : Id) (f : Fc2Diff → Fc2Diff) : (ms.putFc2 id f).sces = ms.sces := by
   unfold Mid.putFc2; split <;> rfl
 theorem putFc2_sfes (ms : Mid) (id : Id) (f : Fc2Diff → Fc2Diff) : (ms.putFc2 id f).sfes = ms.sfes := by
   unfold Mid.putFc2; split <;> rfl
@@ -990,7 +990,7 @@ theorem putFc2_mem {T} {ms : Mid} (hS : Struct T ms) (hd : TDisj T) {id : Id} (h
 
 theorem putFc2_agree {T} {ms : Mid} (hS : Struct T ms) (hd : TDisj T) {id : Id} (hT : T .fc2 id) (f : Fc2Diff → Fc2Diff)
     (hf : (fc2New ms id f).e.id = id) : Agree ms (ms.putFc2 id f) (· = id) := by
-  refine ⟨putFc2_base ms id f, fun x hx => ?_⟩
+  refine ⟨putFc2_base_c1 ms id f, fun x hx => ?_⟩
   have hx' : x ≠ id := hx
   rcases putFc2_cases hS hd hT f with ⟨i, d, hl, hi, hid, hv, he⟩ | ⟨hl, hv, he⟩
   · unfold fc2New at hf; rw [hv] at hf; simp only [Option.getD_some] at hf
